@@ -686,6 +686,29 @@ class ExprMixin:
             idx = self.unwrap_strict(idx)
             if isinstance(idx, VInt) and is_lit(idx.t) and lit_val(idx.t) == 0:
                 return k(st, base.obj)
+        if isinstance(base, VPy) and base.what == "constdict":
+            # subscript of a module-level constant table (e.g. VENDORS[x]): the key may be missing -> KeyError;
+            # otherwise an opaque value.  (A literal key that is present in the table's display never raises.)
+            present = None
+            try:
+                import ast as _ast
+                d = base.obj
+                if isinstance(d, _ast.Dict) and isinstance(idx, (VInt, VStr)):
+                    lit = lit_val(idx.t) if isinstance(idx, VInt) and is_lit(idx.t) else getattr(idx, "lit", None)
+                    keys = [k_.value for k_ in d.keys if isinstance(k_, _ast.Constant)]
+                    if lit is not None and len(keys) == len(d.keys):
+                        present = lit in keys
+            except Exception:
+                present = None
+            outs = []
+            if present is not True:
+                miss = self.arbitrary(BOOL, "tbl_missing") if present is None else TRUE
+                outs += self.raise_(st.assume(miss), "KeyError", where)
+                if present is False:
+                    return outs
+                st = st.assume(Not(miss))
+            outs += k(st, VAny(self.arbitrary(INT, "tbl_val")))
+            return outs
         if isinstance(base, VAny) and "subscript_opaque" in self.reg.specfns:
             return self.reg.specfns["subscript_opaque"](self, st, base, idx, k, where)
         raise Unsupported(f"subscript of {base!r} at {where}")
